@@ -7,8 +7,8 @@ CONSTANTS
   Variants = {"none", "same", "ext", "extm0", "emptyblk", "trunc", "short", "swap", "rename", "recv", "ptype", "pcount", "ret", "cc", "argname", "vis", "doc"}
   WithB1 = {FALSE, TRUE}
   B1Vft = {FALSE, TRUE}
-  Clash = {"no", "derived", "renamed"}
-  DDs = {"none", "plain", "diamond"}
+  Clash = {"no", "derived", "renamed", "renamed2"}
+  DDs = {"none", "plain", "diamond", "twin"}
   DDVft = {"no", "yes", "flat"}
   B1Names = {"b1", "_b1"}
   SameName = TRUE
